@@ -39,6 +39,10 @@ type srvConfig struct {
 	// results served per multihash (key string(mh)); dflt when the multihash is not listed
 	byMh map[string][]ResJ
 	dflt []ResJ
+	// faults per request key (the last path element): a 5xx status before the handler runs,
+	// or the handler's response cut in mid-body
+	failBy map[string]int
+	cutBy  map[string]int // bytes delivered; -2 = all but one, -3 = half, -4 = inside the first JSON string value
 }
 
 type srvSeen struct {
@@ -52,6 +56,7 @@ type srvSeen struct {
 	cidHash  []byte
 	panicked string
 	writeErr string
+	fault    string
 }
 
 type server struct {
@@ -80,7 +85,65 @@ func rwOptions(cfg srvConfig) []rwriter.Option {
 	return opts
 }
 
+// handle: the fault layer in front of the rwriter handler
 func (s *server) handle(w http.ResponseWriter, r *http.Request) {
+	s.mu.Lock()
+	cfg := s.cfg
+	s.mu.Unlock()
+	key := path.Base(r.URL.Path)
+	if st, ok := cfg.failBy[key]; ok {
+		s.mu.Lock()
+		s.seen = append(s.seen, srvSeen{path: r.URL.Path, accepts: append([]string(nil), r.Header.Values("Accept")...), fault: fmt.Sprintf("status %d", st)})
+		s.mu.Unlock()
+		http.Error(w, "injected failure", st)
+		return
+	}
+	k, cut := cfg.cutBy[key]
+	if !cut {
+		s.serve(w, r)
+		return
+	}
+	rec := httptest.NewRecorder()
+	s.serve(rec, r)
+	body := rec.Body.Bytes()
+	switch k {
+	case -2:
+		k = len(body) - 1
+	case -3:
+		k = len(body) / 2
+	case -4:
+		k = len(body) / 3
+		if i := bytes.Index(body, []byte(`":"`)); i >= 0 && i+5 < len(body) {
+			k = i + 5
+		}
+	}
+	if k < 0 {
+		k = 0
+	}
+	if k >= len(body) {
+		k = len(body) - 1
+	}
+	s.mu.Lock()
+	if n := len(s.seen); n > 0 {
+		s.seen[n-1].fault = fmt.Sprintf("cut %d/%d", k, len(body))
+	}
+	s.mu.Unlock()
+	hj, ok := w.(http.Hijacker)
+	if !ok {
+		panic("cannot hijack")
+	}
+	conn, buf, err := hj.Hijack()
+	if err != nil {
+		panic(err)
+	}
+	ct := rec.Header().Get("Content-Type")
+	fmt.Fprintf(buf, "HTTP/1.1 %d %s\r\nContent-Type: %s\r\nContent-Length: %d\r\n\r\n", rec.Code, http.StatusText(rec.Code), ct, len(body))
+	_, _ = buf.Write(body[:k])
+	_ = buf.Flush()
+	_ = conn.Close()
+}
+
+func (s *server) serve(w http.ResponseWriter, r *http.Request) {
 	s.mu.Lock()
 	cfg := s.cfg
 	s.mu.Unlock()
